@@ -170,8 +170,32 @@ pub fn check_case(env: &Env, c: &Case) -> Option<(&'static str, String)> {
     None
 }
 
+/// Long harmless prefixes in front of the parent components: a guard that looks at a bounded
+/// number of components must still refuse these.
+fn deep_strings() -> Vec<String> {
+    let mut v = vec![];
+    for depth in [31usize, 63, 64, 65, 127, 255, 256] {
+        v.push(format!("{}{}a", "d/".repeat(depth), "../".repeat(depth + 2)));
+        v.push(format!("{}{}x/a", "d/".repeat(depth), "../".repeat(depth + 1)));
+    }
+    v
+}
+
 pub fn cases(thorough: bool, canary: &str) -> Vec<Case> {
     let mut out = vec![];
+    for d in deep_strings() {
+        for layout in 0..SINGLE_LENGTHS.len() {
+            out.push(Case { name: d.clone(), path: None, layout });
+        }
+        for n in ["a", ""] {
+            for layout in 0..LAYOUTS.len() {
+                out.push(Case { name: n.to_string(), path: Some(d.clone()), layout });
+            }
+        }
+        for layout in [0usize, 6] {
+            out.push(Case { name: d.clone(), path: Some("a".to_string()), layout });
+        }
+    }
     for n in strings(3, canary) {
         for layout in 0..SINGLE_LENGTHS.len() {
             out.push(Case { name: n.clone(), path: None, layout });
@@ -217,7 +241,7 @@ pub fn run(ctx: &Ctx) -> Outcome {
     let mut o = Outcome::new("exploration");
     o.set("evaluations", json!(all.len()));
     o.set("distinct_nontrivial", json!(hostile));
-    o.set("rule", json!(format!("strings = 1..=3 components from {:?} joined by '/', by backslashes, or by '/' with a backslash before the last component, each also prefixed with an absolute canary directory; single-file torrents: every such name x content length in {{3, 0, 9}} (piece length 4); multi-file torrents: every name of <= {} components x every such path x 7 layouts (the file carrying the path is first / middle / last / the only one, 2 bytes / empty / spanning two pieces); all cases distinct; non-trivial = a '..' component or an absolute path occurs", COMPONENTS, ctx.tier.pick(1, 2))));
+    o.set("rule", json!(format!("strings = 1..=3 components from {:?} joined by '/', by backslashes, or by '/' with a backslash before the last component, each also prefixed with an absolute canary directory; single-file torrents: every such name x content length in {{3, 0, 9}} (piece length 4); multi-file torrents: every name of <= {} components x every such path x 7 layouts (the file carrying the path is first / middle / last / the only one, 2 bytes / empty / spanning two pieces); plus 14 deep strings (31..256 harmless components followed by enough parent components to leave the download directory by one or two levels) as single-file names, as paths under the names 'a' and '', and as names; all cases distinct; non-trivial = a '..' component or an absolute path occurs", COMPONENTS, ctx.tier.pick(1, 2))));
     let picks = ctx.seeded_pick(all.len(), 5);
     o.set("samples", Value::Array(picks.iter().map(|i| json!({"name": all[*i].name, "path": all[*i].path, "layout": all[*i].layout})).collect()));
     o.set("exhaustive", json!(true));
